@@ -200,6 +200,8 @@ def build_cases(cx):
     add("MINK @ sum cube 1 1 1 0 cube 1 1 1 0 tr 4 0 0 add | sphere 0.3 4", "mink-sum-multibody", {"aconvex": False, "bconvex": True})
     add("MINK @ sum %s | lshape 0.4 0.2 0.2 tr -0.1 -0.1 -0.1" % TWO, "mink-sum-multibody", {"aconvex": False, "bconvex": False})
     add("MINK @ diff %s | cube 0.2 0.2 0.2 1" % TWO, "mink-diff-multibody", {"aconvex": False, "bconvex": True})
+    for line, kind, inf in big_operand_cases(batch_size() or 1000):
+        add(line, kind, inf)
     add("CONV @ %s" % TWO, "conv-multibody")
     add("CONV @ torus 2 0.5 8 6", "conv-genus")
     # finding (fix: hooks/fix_C16_1.patch): coplanar cloud with coordinates ~2^33: the planar fallback offsets its auxiliary
@@ -242,6 +244,34 @@ def build_cases(cx):
         p, k = gen_conv(rng)
         add("CONV @ " + p, "conv-" + k)
     return cases
+
+
+def batch_size():
+    """BATCH_SIZE of Impl::Minkowski's triangle sweep (src/minkowski.cpp), read on every run"""
+    src = open(os.path.join(vp.REPO, "src/minkowski.cpp")).read()
+    m = re.search(r"constexpr\s+size_t\s+BATCH_SIZE\s*=\s*(\d+)\s*;", src)
+    return int(m.group(1)) if m else None
+
+
+def big_operand_cases(batch):
+    """swept operands with triangle counts on both sides of the batch size (lshape has 20 triangles, cube 12; Refine(n)
+    multiplies by n^2): just below, above one batch, above two batches; sum with the swept operand first and second, and
+    the difference (convex B)"""
+    def n_for(base, target):
+        n = 1
+        while base * n * n <= target:
+            n += 1
+        return n
+    L = "lshape 2 1 1 tr -0.5 -0.5 -0.5"
+    nb, n1, n2 = n_for(20, batch) - 1, n_for(20, batch), n_for(20, 2 * batch)
+    out = []
+    if batch and batch <= 4000:
+        out.append(("MINK @ sum %s refine %d | cube 0.2 0.2 0.2 1" % (L, max(nb, 1)), "mink-sum-bigA-below-batch", {"aconvex": False, "bconvex": True}))
+        out.append(("MINK @ sum %s refine %d | cube 0.2 0.2 0.2 1" % (L, n1), "mink-sum-bigA-over-batch", {"aconvex": False, "bconvex": True}))
+        out.append(("MINK @ sum sphere 0.2 4 | %s refine %d" % (L, n2), "mink-sum-bigB-over-2-batches", {"aconvex": True, "bconvex": False}))
+        out.append(("MINK @ diff cube 2 2 2 1 refine %d | cube 0.2 0.2 0.2 1" % n_for(12, batch), "mink-diff-bigA-over-batch", {"aconvex": True, "bconvex": True}))
+        out.append(("MINK @ diff %s refine %d | sphere 0.15 4" % (L, n1), "mink-diff-bigA-over-batch", {"aconvex": False, "bconvex": True}))
+    return out
 
 
 def default_eps():
@@ -295,6 +325,9 @@ def run(cx):
     de = default_eps()
     cx.obligation("translate:quickhull.cpp defaultEps", de is not None and 0 < de < 1e-3, "could not read defaultEps() from quickhull.cpp")
     de = de or 1e-7
+    bs = batch_size()
+    cx.obligation("translate:minkowski.cpp BATCH_SIZE", bs is not None and bs >= 1, "could not read BATCH_SIZE from minkowski.cpp")
+    cx.cov["constants_from_source"] = {"defaultEps": de, "BATCH_SIZE": bs}
     mls = vp.coq_extract("ExtractC16", ["c16_model.ml"])
     drv = vp.ocaml_build("c16_driver", mls + [os.path.join(vp.ROOT, "extract/c16_driver.ml")])
     exe = vp.build_harness("c16_hull", "seq", link_lib=True)
